@@ -87,6 +87,8 @@ def _mk_recipe_target(extra_params=None):
 
 
 TARGETS.update({
+    'Container._transfer_slice': ({'interp': {'strict_other': False}}, []),
+    'PlateSlicer._transfer': ({'interp': {'strict_other': False}}, []),
     'PlateSlicer.get_volumes': ({'interp': {'unit_bases': ('L',)}, 'empty_collections': True}, ['the unit argument of a volume observer is a volume unit']),
     'PlateSlicer.get_moles': ({'interp': {'unit_bases': ('mol',)}, 'empty_collections': True}, ['the unit argument of a mole observer is a mole unit']),
     'PlateSlicer.dataframe': ({'params': {'cmap': [('', lambda: NONE)], 'highlight': [('', lambda: Other('bool'))]}}, []),
